@@ -7,8 +7,8 @@ from ..findings import still_fails
 
 ID = "C16"
 LEAN_MODULES = ["PycModel.Properties.C16"]
-NAMESPACES = ["PycModel.C16", "PycModel.ParenExpr", "PycModel.FullExpr", "PycModel.StmtSkel"]
-REQUIRED_THEOREMS = ["PycModel.C16.scanner_linear_iterations", "PycModel.C16.each_token_lexed_once", "PycModel.C16.speculation_never_relexes", "PycModel.C16.whole_parse_lexes_each_token_once", "PycModel.C16.production_keeps_buffer_invariant", "PycModel.C16.expression_fuel_linear", "PycModel.C16.statement_fuel_linear", "PycModel.FullExpr.fuel_linear", "PycModel.StmtSkel.S.fuel_linear", "PycModel.C16.precedence_climbing_fuel_linear", "PycModel.ParenExpr.fuel_linear", "PycModel.C16.impl_star_height"]
+NAMESPACES = ["PycModel.C16", "PycModel.ParenExpr", "PycModel.FullExpr", "PycModel.StmtSkel", "PycModel.TuFuel"]
+REQUIRED_THEOREMS = ["PycModel.C16.translation_unit_fuel_linear", "PycModel.TuFuel.extsFuel_linear", "PycModel.C16.scanner_linear_iterations", "PycModel.C16.each_token_lexed_once", "PycModel.C16.speculation_never_relexes", "PycModel.C16.whole_parse_lexes_each_token_once", "PycModel.C16.production_keeps_buffer_invariant", "PycModel.C16.expression_fuel_linear", "PycModel.C16.statement_fuel_linear", "PycModel.FullExpr.fuel_linear", "PycModel.StmtSkel.S.fuel_linear", "PycModel.C16.precedence_climbing_fuel_linear", "PycModel.ParenExpr.fuel_linear", "PycModel.C16.impl_star_height"]
 LEVEL = "proof"
 TRUSTED = ["partial: CPython's re engine cost and wall-clock time are outside any model; a parser-level linear bound (ticks <= a*tokens + b for all inputs) is not proved - the model's tick counter is tied exactly to the real _TokenStream call counts and growth is measured on the families below"]
 ASSUMPTIONS = []
